@@ -32,12 +32,12 @@ int main(int argc, char** argv) {
             VH_B; vh_i("seq", seq++); VH_C; vh_s("e", "Key"); VH_C; vh_i("lambda", lambda); VH_C; vh_i("R", R); VH_C; vh_i("n", m.p->in_out_params->n); VH_E;
             for (int r = 0; r < R; r++) { VH_B; vh_i("seq", seq++); VH_C; vh_s("e", "Gate"); VH_C; vh_s("g", "CONST"); VH_C; vh_i("d", r); VH_C; vh_i("v", 0); VH_C; vh_i("a", 0); VH_C; vh_i("b", 0); VH_C; vh_i("c", 0); VH_C;
                 vh_i("out", q24(lwePhase(m.c + r, m.sk->lwe_key))); VH_C; vh_i("rng", 1); VH_C; fputs("\"regs\":[", vh_out);
-                for (int q = 0; q < R; q++) fprintf(vh_out, "%s%d", q ? "," : "", q <= r ? q24(lwePhase(m.c + q, m.sk->lwe_key)) : 0); fputs("]", vh_out); VH_E; }
+                for (int q = 0; q < R; q++) fprintf(vh_out, "%s%d", q ? "," : "", q <= r ? q24(lwePhase(m.c + q, m.sk->lwe_key)) : 0); fputs("],\"src\":[]", vh_out); VH_E; }
         } else if (op == "load") {
             int d, bit; long inj; ls >> d >> bit >> inj;
             bootsSymEncrypt(m.c + d, bit, m.sk);
             if (inj) { lweNoiselessTrivial(m.triv, (Torus32)(inj * 256), m.p->in_out_params); lweAddTo(m.c + d, m.triv, m.p->in_out_params); }
-            VH_B; vh_i("seq", seq++); VH_C; vh_s("e", "Load"); VH_C; vh_i("d", d); VH_C; vh_i("bit", bit); VH_C; vh_i("inj", inj); VH_C; vh_i("out", q24(lwePhase(m.c + d, m.sk->lwe_key))); VH_C; vh_i("rng", 1); VH_C; m.regs(); VH_E;
+            VH_B; vh_i("seq", seq++); VH_C; vh_s("e", "Load"); VH_C; vh_i("d", d); VH_C; vh_i("bit", bit); VH_C; vh_i("inj", inj); VH_C; vh_i("out", q24(lwePhase(m.c + d, m.sk->lwe_key))); VH_C; vh_i("rng", 1); VH_C; m.regs(); VH_C; fputs("\"src\":[]", vh_out); VH_E;
         } else if (op == "gate" || op == "const") {
             std::string g; int d, a = 0, b = 0, c = 0, v = 0;
             if (op == "const") { g = "CONST"; ls >> d >> v; } else ls >> g >> d >> a >> b >> c;
@@ -51,7 +51,7 @@ int main(int argc, char** argv) {
             else if (g == "COPY") bootsCOPY(D, A, bk); else if (g == "CONST") bootsCONSTANT(D, v, bk); else { fprintf(stderr, "bad gate %s\n", g.c_str()); return 2; }
             int same = r0 == rng_state();
             VH_B; vh_i("seq", seq++); VH_C; vh_s("e", "Gate"); VH_C; vh_s("g", g.c_str()); VH_C; vh_i("d", d); VH_C; vh_i("a", a); VH_C; vh_i("b", b); VH_C; vh_i("c", c); VH_C; vh_i("v", v); VH_C;
-            vh_i("out", q24(lwePhase(D, m.sk->lwe_key))); VH_C; vh_i("rng", same); VH_C; m.regs(); VH_E;
+            vh_i("out", q24(lwePhase(D, m.sk->lwe_key))); VH_C; vh_i("rng", same); VH_C; m.regs(); VH_C; fputs("\"src\":[]", vh_out); VH_E;
         } else if (op == "dec") {
             int r; ls >> r;
             VH_B; vh_i("seq", seq++); VH_C; vh_s("e", "Dec"); VH_C; vh_i("r", r); VH_C; vh_i("bit", bootsSymDecrypt(m.c + r, m.sk)); VH_E;
